@@ -790,6 +790,9 @@ def cut_includes(rng, text, main_url, ncuts=None, places=("", "sub/", "../")):
         elif r < 0.3:
             # a file name of several words
             name = "%sinc %d part.conf" % (place, len(resources))
+        elif r < 0.38:
+            # a file name whose ending means something else to the rest of the world
+            name = "%sinc%d%s" % (place, len(resources), rng.choice([".png", ".wav", ".xml", ".html", ".gz", ""]))
         target = model.url_join(url, name)
         if target in resources:
             continue
